@@ -12,6 +12,8 @@ pub const DEFAULT_SEED: u64 = 20261004;
 pub const WORKERS: u64 = 16;
 
 pub struct EngineDef {
+    /// every scenario runs in a process of its own (state cannot leak from one scenario to the next)
+    pub isolate: bool,
     pub name: &'static str,
     pub property: &'static str,
     pub scenarios: fn(Tier) -> u64,
@@ -21,24 +23,35 @@ pub struct EngineDef {
 pub fn engines() -> Vec<EngineDef> {
     vec![
         EngineDef {
+            isolate: false,
             name: "crash-sim",
             property: "C04",
             scenarios: crate::engine_crash::scenarios,
             scenario: crate::engine_crash::scenario,
         },
         EngineDef {
+            isolate: false,
             name: "heap-sim",
             property: "C03",
             scenarios: crate::engine_heap::scenarios,
             scenario: crate::engine_heap::scenario,
         },
         EngineDef {
+            isolate: false,
             name: "session-sim",
             property: "C17",
             scenarios: crate::engine_session::scenarios,
             scenario: crate::engine_session::scenario,
         },
         EngineDef {
+            isolate: true,
+            name: "purity-sim",
+            property: "C16",
+            scenarios: crate::engine_purity::scenarios,
+            scenario: crate::engine_purity::scenario,
+        },
+        EngineDef {
+            isolate: false,
             name: "gc-sim",
             property: "C03",
             scenarios: crate::engine_gc::scenarios,
@@ -136,8 +149,17 @@ pub struct WorkerOut {
     pub stderr_tail: String,
 }
 
+thread_local! {
+    /// executable used for child processes (default: this one)
+    pub static CHILD_EXE: std::cell::RefCell<Option<std::path::PathBuf>> = const { std::cell::RefCell::new(None) };
+}
+
 fn spawn(args: &[String]) -> std::io::Result<Child> {
-    Command::new(std::env::current_exe()?)
+    let exe = match CHILD_EXE.with(|c| c.borrow().clone()) {
+        Some(p) => p,
+        None => std::env::current_exe()?,
+    };
+    Command::new(exe)
         .args(args)
         .stdin(Stdio::null())
         .stdout(Stdio::piped())
@@ -271,10 +293,10 @@ pub fn run_engine(e: &EngineDef, seed: u64, tier: Tier, count: u64, workers: u64
         Tier::Thorough => Duration::from_secs(3 * 3600),
     };
     // more jobs than processes running at a time: evens out scenarios of very different cost
-    let njobs = if workers > 1 { workers * 6 } else { 1 };
+    let njobs = if e.isolate { count } else if workers > 1 { workers * 6 } else { 1 };
     let jobs: Vec<(String, Vec<String>)> = (0..njobs)
         .map(|w| {
-            let ind = format!("{}:{}:{}", w, njobs, count);
+            let ind = if e.isolate { format!("list:{}", w) } else { format!("{}:{}:{}", w, njobs, count) };
             (
                 ind.clone(),
                 vec![
@@ -287,7 +309,7 @@ pub fn run_engine(e: &EngineDef, seed: u64, tier: Tier, count: u64, workers: u64
             )
         })
         .collect();
-    let outs = run_children(jobs, workers as usize, deadline);
+    let outs = run_children(jobs, if e.isolate { WORKERS as usize } else { workers as usize }, deadline);
     let mut acc = Acc::new(false);
     let mut violations = Vec::new();
     let mut harness_errors = Vec::new();
@@ -495,8 +517,13 @@ pub fn conclude(property: &str, violations: Vec<Violation>, harness_errors: &[St
             break;
         }
         let path = write_replay(&v);
+        let original = std::fs::read_to_string(&path).unwrap_or_default();
         if v.class != "crash" {
             shrink_in_child(&path);
+            // a minimised scenario that does not reproduce in a fresh process is discarded
+            if !matches!(confirm_replay(&path), Ok(true)) {
+                let _ = std::fs::write(&path, &original);
+            }
         }
         // the minimised file names the violation it reproduces (class/key may have been refined)
         let (class, key, detail) = std::fs::read_to_string(&path)
@@ -553,8 +580,12 @@ pub fn conclude(property: &str, violations: Vec<Violation>, harness_errors: &[St
             }
         }
     }
-    for h in harness_errors {
-        println!("HARNESS-ERROR: {}", h);
+    for (i, h) in harness_errors.iter().enumerate() {
+        if i < 5 {
+            println!("HARNESS-ERROR: {}", h);
+        } else if i == 5 {
+            println!("HARNESS-ERROR: ... and {} more", harness_errors.len() - 5);
+        }
         if exit == 0 {
             exit = 2;
         }
